@@ -689,8 +689,39 @@ CORPUS = [
 ]
 
 
+# whole decks (LIKE deck, explicit deck): the shapes the seeded changes need
+_FTAIL = ('\n1 so 1\n2 s 0 5 0 1\n9 so 30\n\nm1 1001 1\nm2 8016 1\nm3 26056 1\n')
+CORPUS_FULL = [
+    ('importances on an IMP data card, a LIKE card followed by plain cells '
+     '(seeded C15_A: rank of the cells after a LIKE card)',
+     'corpus\n1 1 -1.0 -1\n2 like 1 but trcl=(5 0 0)\n3 2 -2.0 -2\n'
+     '4 0 #1 #2 #3 -9\n5 0 9\n' + _FTAIL + 'imp:n 1 0 2 1 0\n',
+     'corpus\n1 1 -1.0 -1\n2 1 -1.0 -1 trcl=(5 0 0)\n3 2 -2.0 -2\n'
+     '4 0 #1 #2 #3 -9\n5 0 9\n' + _FTAIL + 'imp:n 1 0 2 1 0\n'),
+    ('BUT RHO with a spelling that normalize_float changes (seeded C15_D)',
+     'corpus\n1 1 -1.0 -1 imp:n=1\n2 like 1 but rho=-2.50 trcl=(5 0 0)\n'
+     '3 like 2 but mat=3 RHO=7.80-1 trcl=(0 5 0)\n'
+     '4 0 #1 #2 #3 -9 imp:n=1\n5 0 9 imp:n=0\n' + _FTAIL,
+     'corpus\n1 1 -1.0 -1 imp:n=1\n2 1 -2.50 -1 imp:n=1 trcl=(5 0 0)\n'
+     '3 3 7.80-1 -1 imp:n=1 trcl=(0 5 0)\n'
+     '4 0 #1 #2 #3 -9 imp:n=1\n5 0 9 imp:n=0\n' + _FTAIL),
+    ('the same keyword overridden at two levels of a chain (seeded C15_C)',
+     'corpus\n1 1 -1.0 -1 imp:n=1 u=0\n2 like 1 but mat=2 rho=-2.0 trcl=(5 0 0) imp:n=2\n'
+     '3 like 2 but mat=3 rho=-3.0 trcl=(0 5 0) imp:n=4\n'
+     '4 0 #1 #2 #3 -9 imp:n=1\n5 0 9 imp:n=0\n' + _FTAIL,
+     'corpus\n1 1 -1.0 -1 imp:n=1 u=0\n2 2 -2.0 -1 imp:n=2 u=0 trcl=(5 0 0)\n'
+     '3 3 -3.0 -1 imp:n=4 u=0 trcl=(0 5 0)\n'
+     '4 0 #1 #2 #3 -9 imp:n=1\n5 0 9 imp:n=0\n' + _FTAIL),
+]
+
+
 def corpus_failures():
     out = []
+    for name, a_text, b_text in CORPUS_FULL:
+        a = impl.convert(a_text, keep_stdout=False)
+        b = impl.convert(b_text, keep_stdout=False)
+        if not (a.ok and b.ok) or strip_header(a.text) != strip_header(b.text):
+            out.append((name, a_text, b_text, f'{a} / {b}'))
     for name, like_cards, explicit_cards in CORPUS:
         for order in (0, 1):
             a_cards = like_cards + _SHARED if order else _SHARED + like_cards
@@ -766,7 +797,7 @@ def _run(res, tier, seed, proofs_ok):
                       f'its explicit expansion ({detail})',
                       {'input': {'deck': a_text, 'expanded': b_text},
                        'oracle': 'corpus'}, found_input=True)
-    res.count('corpus-decks', 2 * len(CORPUS))
+    res.count('corpus-decks', 2 * len(CORPUS) + len(CORPUS_FULL))
 
     # ---- 2. decks: sweep + tie cases ----
     cases, meta = [], []
